@@ -31,6 +31,11 @@ PROFILE = P.profile(p_hibernation=0.7, levels_w={1: 0.3, 2: 5, 3: 5}, p_lsc_inje
 
 def gen(seed, tier):
     pl = P.gen_plan(seed, PROFILE, PROP)
+    if pl.get("entry") in ("tree", "steps") and seed % 6 == 5:
+        # the user calls run_metaepoch() and run_sprout() himself (the tree's metaepoch counter stays where it is)
+        pl["entry"] = "phases"
+        pl["phase_rounds"] = 3 + seed % 6
+        pl["faults"] = {k: v for k, v in pl.get("faults", {}).items() if k == "lsc_inject"}
     opts = pl.get("options", {})
     if "hibernation" not in opts and seed % 2 == 0:
         # an earlier tree of the same process had hibernation on; this one leaves the key out (or passes no options)
